@@ -40,7 +40,9 @@ partial def appOf (m : String) (j : Json) (next : Nat) : Except String (App × N
         | none => pure []
       lo := lo ++ [(h, loc)]
       if ms.contains m then routes := routes ++ [(parseRoute (toBytes (← jstr it "route")), h)]
-  return (App.mk id (!fangs.isEmpty) routes mounts, n, fo, lo)
+  -- the harness builds every application with `Ohkami::with(fangs, ..)` (or `Ohkami::new((fangs.., ..))` when there are some): its fang
+  -- entry exists even for `()`, and opens a scope at the mount node (no single-child compression across it)
+  return (App.mk id true routes mounts, n, fo, lo)
 
 /-- flattened routes of the (per-method) tree: the spec's input -/
 partial def flat : App → List (Route × Nat)
@@ -71,7 +73,7 @@ def handleOne (app : App) (cfg : Cfg) (stop : Option Nat) (m : String) (p : Byte
       ("spec", match spec with
         | some (h', ps) => Json.mkObj [("handler", h'), ("params", Json.arr ((ps.take 2).map fun c => hexJ (Http.utf8Lossy (Percent.decode c))).toArray)]
         | none => Json.null),
-      ("spec_exact", !cfg.anyFangs)]
+      ("spec_exact", !cfg.anyFangs && (match app with | .mk _ _ _ mounts => mounts.isEmpty))]
 
 def runCase (j : Json) : Except String Json := do
   let c ← j.getObjVal? "case"
